@@ -7,8 +7,10 @@ CONSTANT Opt <- MCOpt
 CONSTANT Mdl <- MCMdl
 CONSTANT InPlace <- MCInPlace
 CONSTANT MaxLen = 3
-CONSTANT Policy = "as_is"
+CONSTANT Policy = "clear_caches_at_entry"
 CONSTANT SeedsRng = TRUE
 CONSTANT ReaderCopies = TRUE
 INVARIANT NoFailureFromHistory
+INVARIANT CallerStateUntouched
+INVARIANT ContainerIndependent
 CHECK_DEADLOCK FALSE
